@@ -146,7 +146,8 @@ def memo_cases():
     import itertools
     out = []
     for name, parts in _MEMO_SETS.items():
-        for perm in itertools.permutations(parts):
+        perms = list(itertools.permutations(parts))
+        for perm in (perms if len(parts) == 3 else perms[::3]):
             out.append((name, "{ pet { %s } } %s" % (" ".join(perm), _MEMO_FRAGS)))
     return out
 
